@@ -33,3 +33,26 @@ def handlers : List (String × (List String → Option String)) :=
   [("op.episode", episode), ("op.check", check)]
 
 end Rl4co.Driver.Op
+
+namespace Rl4co.Driver.Op
+open Rl4co.Proto
+
+/-- `op.check1col B | n_1 a_1 cbound_1[0..n_1] | … | n_B a_B cbound_B[0..n_B] | X (B×B row-major)`:
+the batched checker on a single-column action tensor (only `n`, `cbound` of an instance matter). -/
+def check1col (toks : List String) : Option String := do
+  let secs ← parseSections toks
+  let [b] ← secs.head? | none
+  let B := b.toNat
+  let rowSecs := (secs.drop 1).take B
+  let xs ← (secs.drop (1 + B)).head?
+  let rows ← rowSecs.mapM (fun sec => match sec with
+    | n :: a :: cb =>
+      some (({ n := n.toNat, L := 0, D := fun _ _ => 0, prize := fun _ => 0, budget := fun _ => 0,
+               cbound := fn1 cb } : Rl4co.Op.Inst), a.toNat)
+    | _ => none)
+  pure s!"check={bit (Rl4co.Op.checkSingleColumnBatch rows (fn2 B xs))}"
+
+def handlers1 : List (String × (List String → Option String)) :=
+  handlers ++ [("op.check1col", check1col)]
+
+end Rl4co.Driver.Op
